@@ -11,6 +11,11 @@ Open Scope Z_scope.
 Definition io_writer_contract (P : policy) : Prop :=
   forall tr buf, snd (p_write P tr buf) = ENil -> (length buf <= fst (p_write P tr buf))%nat.
 
+(* same optional capabilities, possibly different fast paths *)
+Definition same_but_fast_paths (a b : ucfg) : Prop :=
+  c_flush a = c_flush b /\ c_hij a = c_hij b /\ c_push a = c_push b /\
+  c_rdl a = c_rdl b /\ c_wdl a = c_wdl b /\ c_dup a = c_dup b.
+
 (* ---------- body-only version of the copy-loop lemma ---------- *)
 Section CopyBody.
   Context {S : Type} (W : S -> bytes -> S * nat * err).
